@@ -251,6 +251,11 @@ def run_case(c, d):
             p = spectrum.pyule(x, d['P'], NFFT=NFFT, sampling=fs, scale_by_freq=False)
         else:
             p = getattr(spectrum, cls)(x, d['P'], NFFT=NFFT, sampling=fs)
+        if d.get('i', 0) % 3 == 1:
+            # history: the object was evaluated at another sampling rate first
+            _ = p.psd
+            fs = fs * 4.0
+            p.sampling = fs
         psd = np.asarray(p.psd)
         ar, ma_, rho = p.ar, p.ma, p.rho
         nfft = p.NFFT
